@@ -144,6 +144,7 @@ class Case:
     strings: Optional[List[str]] = None  # witness strings (default ["", "a"])
     extra_items: str = ""                # extra Rust items
     decl_types: Optional[List[str]] = None  # Rust type expressions whose decl() joins the environment
+    warmup: List[str] = dfield(default_factory=list)  # String-valued Rust expressions evaluated BEFORE any decl() of the case (call-order twin)
 
     def source(self):
         return "\n".join(t.render() for t in self.types) + ("\n" + self.extra_items if self.extra_items else "")
@@ -242,10 +243,11 @@ def render_case(idx, case):
     if case.strings is not None:
         strings = "ctx.strings = vec![" + ", ".join(json.dumps(s) + ".to_string()" for s in case.strings) + "];"
     body = "\n        ".join(case.body)
+    warm = " ".join(f"let _ = std::panic::catch_unwind(|| {w});" for w in case.warmup)
     parts.append(f"""
 pub fn run(ctx: &mut e2rt::Ctx) {{
     ctx.case("{cid}", {rust_raw(json.dumps(case.klass, sort_keys=True))}, {rust_raw(case.source())},
-        &|| {{ let mut d = crate::prelude::decls(); {decl_push} d }},
+        &|| {{ {warm} let mut d = crate::prelude::decls(); {decl_push} d }},
         &|ctx| {{
         {strings}
         {body}
